@@ -66,6 +66,7 @@ type sendObs struct {
 	Plugin          string `json:"plugin"`
 	DataNorm        string `json:"dataNorm"`
 	Outcome         string `json:"outcome"`
+	MsgType         string `json:"msgType"` // aio.Message.Type: what the transport plugin sees as the kind of message
 	BodyType        string `json:"bodyType"`
 	BodyHasTask     bool   `json:"bodyHasTask"`
 	BodyTaskId      string `json:"bodyTaskId"`
